@@ -103,7 +103,7 @@ func TestPLRMExamples(t *testing.T) {
 		{"undefined", []Tok{x("nosuchname")}, "error:undefined"},
 		{"dictstackunderflow", []Tok{x("end")}, "error:dictstackunderflow"},
 		{"unmatchedmark", []Tok{x("]")}, "error:unmatchedmark"},
-		{"limitcheck", []Tok{i(65537), x("string")}, "error:limitcheck"},
+		{"limitcheck", []Tok{i(1 << 31), x("string")}, "error:limitcheck"},
 		{"findfont", []Tok{l("F"), i(1), x("dict"), x("definefont"), x("pop"), l("F"), x("findfont"), x("length")}, "i:0"},
 		{"invalidfont", []Tok{l("G"), x("findfont")}, "error:invalidfont"},
 		{"resource", []Tok{l("R"), i(42), l("ProcSet"), x("defineresource"), x("pop"), s("R"), l("ProcSet"), x("findresource")}, "i:42"},
